@@ -272,7 +272,7 @@ func (vc *VC) applyContract(x *ssa.Call, key string, fc *FuncContract, callee *s
 			if c.Kind == "at-return" {
 				continue
 			}
-			vc.assume(vc.evalBool(c.E, env, st, pre))
+			vc.assumeL(vc.evalBool(c.E, env, st, pre), c.Label)
 		}
 	}
 	return res
